@@ -55,7 +55,10 @@ def check_case(ctx, v, params, kind, delivery, origin):
     ctx.count("cases_" + origin)
     ctx.count("kind_" + kind)
     ctx.count("delivery_" + delivery.split("|")[0])
-    if src.reads - src.eos_returns != len(frames):
+    if src.faults:
+        ctx.count("source_faults_injected")
+        ctx.count("source_faults_that_reached_the_caller" if src.fault_propagated else "source_faults_absorbed_by_the_tokenizer")
+    if src.reads - src.eos_returns != len(frames) and not src.fault_propagated:
         ctx.violation("source-not-read-to-end", {"case": T.case_of(v, params, kind, delivery), "reads": src.reads, "frames": len(frames)})
     for key, detail in inv.c01(frames, tokens):
         detail["case"] = T.case_of(v, params, kind, delivery)
@@ -83,7 +86,7 @@ def inconclusive(merged, tier):
         out.append("no token was ever observed")
     if c.get("held_results_rechecked", 0) == 0:
         out.append("held results were never re-checked")
-    for k in ("cases_exhaustive", "cases_exhaustive_init", "cases_recipe", "cases_random", "cases_reuse", "cases_offgrid", "cases_large_max_length"):
+    for k in ("cases_exhaustive", "cases_exhaustive_init", "cases_recipe", "cases_random", "cases_reuse", "cases_offgrid", "cases_large_max_length", "cases_source_fault", "source_faults_injected"):
         if c.get(k, 0) == 0:
             out.append(f"workload class {k} never ran")
     return out
